@@ -192,6 +192,8 @@ func c08(p *P) {
 	r.Rule("C08.R1", "normal forms: strong ⇔ 3p−2w ≥ 0; weak ⇒ 3p−w ≥ 1; ceil helper; could-reach shape", 5)
 	r.Rule("C08.R2", "call sites: part and whole come from the same power table", 7)
 	r.Rule("C08.R3", "single threshold implementation", 1)
+	p.gCopiesAreDeep("C08.R4", "powertable")
+	p.include(c05, map[string]string{"C05.R4": "C08.R5", "C05.R5": "C08.R5b", "C05.R1": "C08.R5c"}, map[string]string{"C08.R5": "the message validator applies the threshold on every presentation (no acceptance before the quorum check, caches written last)", "C08.R5b": "justification quorum of the same table", "C08.R5c": "message acceptance gated"})
 	r.Rule("C08.R4", "scaling: ⌊65535·p/T⌋ in big arithmetic under T ≥ p; sibling users pass the table's own total", 6)
 
 	// ---------- R1
